@@ -923,6 +923,7 @@ def run(ctx, res):
         flush(ctx, res, lines, expect, meta)
         cross_process(ctx, res, env, xp_cases)
         dbal_total(ctx, res)
+        pipeline_stream(ctx, res)
     finally:
         env.close()
 
@@ -1042,6 +1043,165 @@ def cross_process(ctx, res, env, cases):
                      {"this_process": str(a[d:d + 1])[:400], "other_process": str(b[d:d + 1])[:400]}, "identical", signature="C06:cross-process")
 
 
+# ------------------------------------------------------------------ the composed model (Model/ScorePipeline.lean) vs the real pipeline
+def pipe_eval(case):
+    """the REAL pipeline on one case: distance chunks -> concat -> dense, score_chunk with GaussianDBALScorer per chunk (recording
+    generator: the drawn triple indices), save/load/concat, select_next_plate.  Returns (driver line, observed dict)."""
+    from harness import c05, c09
+    from batchie.core import ThetaHolder
+    from batchie.distance_calculation import calculate_pairwise_distance_matrix_on_predictions, ChunkedDistanceMatrix
+    from batchie.distance.mse import MSEDistance
+    from batchie.scoring.main import score_chunk, ChunkedScoresHolder, select_next_plate
+    from batchie.scoring.gaussian_dbal import GaussianDBALScorer
+    Scorer, Policy = plugins()
+    scr = S.build(case["raw"])
+    ths = [c09.theta_from_case("sdc", c) for c in case["thetas"]]
+    th = ThetaHolder(n_thetas=len(ths))
+    for x in ths:
+        th.add_theta(x)
+    kd, ks, batch, mc = case["kd"], case["ks"], list(case["batch"]), case["mc"]
+    parts = [calculate_pairwise_distance_matrix_on_predictions(thetas=th, distance_metric=MSEDistance(), data=scr, chunk_index=c, n_chunks=kd)
+             for c in range(kd)]
+    dm = ChunkedDistanceMatrix.concat(parts)
+    dense = np.asarray(dm.to_dense(), dtype=float)
+    draws, holders = [], []
+    tmp = tempfile.mkdtemp(prefix="verif_c06_pipe_")
+    try:
+        for idx in range(ks):
+            rec = c05.RecRng(case["seed"] * 100 + idx)
+            h = score_chunk(scorer=GaussianDBALScorer(max_chunk=mc, max_triples=case["mt"]), thetas=th, screen=scr, distance_matrix=dm, rng=rec,
+                            n_chunks=ks, chunk_index=idx, batch_plate_ids=list(batch))
+            draws.append(rec.calls)
+            fn = os.path.join(tmp, "h%d.h5" % idx)
+            h.save_h5(fn)
+            holders.append(ChunkedScoresHolder.load_h5(fn))
+        chunks = [[(int(p), float(x)) for p, x in zip(h.plate_ids, h.scores)] for h in holders]
+        comb = ChunkedScoresHolder.concat(holders)
+    finally:
+        shutil.rmtree(tmp, ignore_errors=True)
+    allowed = case["allowed"]
+    Policy.allowed = set(allowed) if allowed is not None else set()
+    sel = select_next_plate(scores=comb, screen=scr, policy=(Policy() if allowed is not None else None), batch_plate_ids=list(batch),
+                            rng=np.random.default_rng(0))
+    dtok = "|".join(("/".join(",".join(str(i) for i in call) for call in calls) if calls else "-") for calls in draws)
+    line = "pipe.dbal %d %d %s %d %s %s %s %s" % (kd, ks, ids_tok(batch), mc, dtok, "none" if allowed is None else ids_tok(allowed),
+                                               "/".join(c09.theta_tok("sdc", x) for x in ths), S.raw_to_tokens(case["raw"]))
+    return line, {"dense": dense, "draws": draws, "chunks": chunks, "combined": [int(x) for x in comb.plate_ids],
+                  "selected": -1 if sel is None else int(sel.plate_id), "screen": scr}
+
+
+def _close(a, b, rel=1e-9):
+    if a == b:
+        return True
+    if np.isnan(a) or np.isnan(b) or np.isinf(a) or np.isinf(b):
+        return False
+    return abs(a - b) <= rel * max(abs(a), abs(b)) + 1e-300
+
+
+def pipe_compare(res, case, obs, got, where="C06:pipe"):
+    """driver answer of `pipe.dbal` vs the observed real pipeline: dense matrix and scores within 1e-9 relative, combined plate ids equal,
+    selected plate equal unless the two best allowed scores are closer than 1e-6 relative"""
+    cc = {k: v for k, v in case.items() if k != "thetas"}
+    if not got.startswith("ok "):
+        res.disagree(where, cc, "ok", got[:300])
+        return
+    parts = dict(x.split("=", 1) for x in got[3:].split("#"))
+    md = [] if parts["dense"] == "-" else [[S.from_bits(int(x)) for x in r.split(",")] for r in parts["dense"].split(";")]
+    d = obs["dense"]
+    if len(md) != d.shape[0] or any(len(r) != d.shape[1] for r in md) or not all(_close(float(d[i][j]), md[i][j]) for i in range(len(md)) for j in range(len(md))):
+        res.disagree(where + ":dense", cc, [[repr(float(x)) for x in r] for r in d], [[repr(x) for x in r] for r in md])
+        return
+    mchunks = []
+    for ctok in parts["scores"].split(";"):
+        mchunks.append([] if ctok in ("-", "") else [(int(e.split(":")[0]), float("nan") if e.split(":")[1] == "nan" else S.from_bits(int(e.split(":")[1])))
+                                                     for e in ctok.split(",")])
+    ok = len(mchunks) == len(obs["chunks"]) and all(
+        [p for p, _ in a] == [p for p, _ in b] and all(_close(x, y) for (_, x), (_, y) in zip(a, b)) for a, b in zip(obs["chunks"], mchunks))
+    if not ok:
+        res.disagree(where + ":scores", cc, [[(p, repr(x)) for p, x in c] for c in obs["chunks"]], [[(p, repr(x)) for p, x in c] for c in mchunks])
+        return
+    mcomb = [] if parts["combined"] == "-" else [int(x) for x in parts["combined"].split(",")]
+    if mcomb != obs["combined"]:
+        res.disagree(where + ":combined", cc, obs["combined"], mcomb)
+        return
+    # selection: only when the winner is numerically unambiguous
+    scr = obs["screen"]
+    cands = expected_candidates(scr, case["batch"])
+    allow = [p for p in cands if case["allowed"] is None or p in case["allowed"]]
+    sc = {p: x for c in obs["chunks"] for p, x in c}
+    best = sorted(sc[p] for p in allow if p in sc)
+    ambiguous = len(best) >= 2 and (best[0] == best[1] or (np.isfinite(best[0]) and np.isfinite(best[1])
+                                                          and abs(best[1] - best[0]) <= 1e-6 * max(abs(best[0]), abs(best[1]))))
+    if ambiguous:
+        res.count("pipe.selection-ambiguous")
+    elif int(parts["sel"]) != obs["selected"]:
+        res.disagree(where + ":selected", cc, obs["selected"], parts["sel"])
+
+
+def pipe_gen(rng, seed, raw=None):
+    """a case of the composed pipeline: a C04-style screen (all single agents observed), really trained SparseDrugCombo samples"""
+    from harness import c04, c09
+    if raw is None:
+        for _ in range(40):
+            raw = c04.gen_base(rng, big=True)
+            if seed % 3 == 0 or len(set(p_ for p_, m_ in zip(raw["pnames"], raw["mask"]) if not m_)) >= 3:
+                break
+    scr = S.build(raw)
+    model, _ = c04.train_arrays("combo", scr)
+    nth = rng.choice([3, 4, 4, 5, 6])
+    th = c04.thetas_of(model, seed, n=nth)
+    pids, mask, sids, tids, plates, observed = facts(scr)
+    unobs = [p for p in plates if not observed[p]]
+    batch = [] if (len(unobs) < 2 or rng.random() < 0.4) else rng.sample(unobs, rng.randint(1, len(unobs) - 1))
+    cands = [p for p in unobs if p not in batch]
+    allowed = None if rng.random() < 0.6 else sorted(rng.sample(plates, rng.randint(0, len(plates))))
+    return {"kind": "pipe", "raw": raw, "thetas": [c09.theta_to_case("sdc", th.get_theta(i)) for i in range(nth)], "kd": rng.randint(1, 4),
+            "ks": rng.randint(1, len(cands) + 2), "batch": batch, "mc": rng.choice([1, 2, 2, 50]), "mt": rng.choice([3, 6, 5000]), "allowed": allowed,
+            "seed": seed}
+
+
+def pipeline_stream(ctx, res):
+    """the composed Lean pipeline (predictions -> MSE distances -> chunks -> dense -> score chunks with the DBAL scorer -> holders ->
+    selection) executed at Float against the real pipeline on the same screen, samples and recorded draws"""
+    c04_quiet()
+    rng = ctx.subrng("c06-pipe")
+    cases, lines, obs = [], [], []
+    for t in range(ctx.scale(14, 120, 40)):
+        case = pipe_gen(rng, t)
+        try:
+            line, o = pipe_eval(case)
+        except Exception as e:   # noqa: BLE001
+            res.fail("the scoring pipeline raised on a valid screen / samples", {k: v for k, v in case.items()}, "%s: %s" % (type(e).__name__, e),
+                     "distance matrix, scores, selection", signature="C06:pipe-raises")
+            continue
+        res.evaluations += 1
+        res.count("pipe.cases")
+        res.count("pipe.thetas.%d" % len(case["thetas"]))
+        got_ids = sorted(p for c in o["chunks"] for p, _ in c)
+        if got_ids != sorted(expected_candidates(o["screen"], case["batch"])):
+            res.fail("GaussianDBALScorer pipeline: scored plates != candidates, each once", case, got_ids,
+                     sorted(expected_candidates(o["screen"], case["batch"])), signature="C06:dbal-total")
+        res.count("pipe.candidates.%s" % min(4, len(got_ids)))
+        res.count("pipe.batch.%s" % min(2, len(case["batch"])))
+        if any(len(calls) >= 2 for calls in o.get("draws", [])):
+            res.count("pipe.chunk-with-several-kernel-calls")
+        if any(x == float("-inf") for c in o["chunks"] for _, x in c):
+            res.count("pipe.score-neg-inf")
+        cases.append(case)
+        lines.append(line)
+        obs.append(o)
+    if ctx.driver is not None and lines:
+        got = ctx.driver.ask(lines)
+        for case, o, g in zip(cases, obs, got):
+            pipe_compare(res, case, o, g)
+        res.traces_validated += len(lines)
+
+
+def c04_quiet():
+    from harness import c04
+    c04.quiet()
+
+
 def flush(ctx, res, lines, expect, meta):
     if ctx.driver is not None and lines:
         got = ctx.driver.ask(lines)
@@ -1056,6 +1216,18 @@ def replay(ctx, case, res):
     quiet_logging()
     if case.get("kind") == "dbal":
         dbal_total(ctx, res)
+        return
+    if case.get("kind") == "pipe":
+        c04_quiet()
+        try:
+            line, o = pipe_eval(case)
+        except Exception as e:   # noqa: BLE001
+            res.fail("the scoring pipeline raised on a valid screen / samples", case, "%s: %s" % (type(e).__name__, e), "runs", signature="C06:pipe-raises")
+            return
+        got_ids = sorted(p for c in o["chunks"] for p, _ in c)
+        if got_ids != sorted(expected_candidates(o["screen"], case["batch"])):
+            res.fail("GaussianDBALScorer pipeline: scored plates != candidates, each once", case, got_ids,
+                     sorted(expected_candidates(o["screen"], case["batch"])), signature="C06:dbal-total")
         return
     if case.get("via") == "subprocess":
         env = Env()
